@@ -1,6 +1,7 @@
 """C04 / C09: tulz::RingBuffer against the Lean slot model and the bounded-deque oracle."""
 import itertools
 
+import iterspec
 import lib
 import seqtie
 from lib import Failure, TieResult
@@ -18,10 +19,12 @@ PROPS = {
         "design_ref": "6.2/C04",
         "technique": "Lean 4 refinement proof (slot-level model of RingBuffer.h refines a bounded deque, per operation and by induction over every history) + three-way differential correspondence model/oracle/real code",
         "level_text": "Machine-checked proof: every valid operation of the transcribed model (all members incl. the three resize layouts, copy/move/assign, iteration) succeeds, returns the bounded deque's answer and preserves the representation invariant, for every capacity, head position, overwrite mode and element type; lifted by induction to every finite history over several objects. The model is tied to the header in /repo on every run by running model, a Python bounded-deque oracle and the real RingBuffer<Tracked/long/double> on the same generated histories (every reachable layout x every op, exhaustive short words, seeded random).",
-        "level_note": "Trusted: Lean kernel; hand transcription of RingBuffer.h (checked by the correspondence run, not proved); malloc/realloc/memcpy modelled as slot relocation (sound only for bitwise-relocatable T, the property's own restriction); unbounded Nat (no size_t overflow, no allocation failure); signed modCap related to the Nat index arithmetic by C04_modCap_signed.",
-        "lean_modules": ["Tulz.Props.C04"],
+        "level_note": "Trusted: Lean kernel; hand transcription of RingBuffer.h (checked by the correspondence run, not proved); malloc/realloc/memcpy modelled as slot relocation (sound only for bitwise-relocatable T, the property's own restriction); unbounded Nat (no size_t overflow, no allocation failure); signed modCap related to the Nat index arithmetic by C04_modCap_signed. RandomAccessIndexIterator is modelled operator by operator with its size_t/ptrdiff_t arithmetic modulo 2^64 (Model/IndexIter.lean): the begin..end and end..begin loops yield the deque contents, iterator arithmetic follows integer positions while they fit a ptrdiff_t, the six comparisons are mutually consistent (Props/C04Iter.lean); tied by iterator scripts (`rb it`) run on model, oracle and the real iterator and const_iterator.",
+        "lean_modules": ["Tulz.Props.C04", "Tulz.Props.C04Iter"],
         "theorems": ["Tulz.C04_op_refines", "Tulz.C04_history", "Tulz.C04_history_from_empty", "Tulz.C04_resize_keeps_front",
-                     "Tulz.C04_push_full_discards_opposite", "Tulz.C04_modCap_signed"],
+                     "Tulz.C04_push_full_discards_opposite", "Tulz.C04_modCap_signed",
+                     "Tulz.C04_iter_forward", "Tulz.C04_iter_backward", "Tulz.C04_iter_is_toList", "Tulz.C04_iter_random_access",
+                     "Tulz.C04_iter_script_positions", "Tulz.C04_iter_operator_laws"],
         "trusted_base": COMMON_TB,
         "assumptions": ["element type is bitwise relocatable (the property's own restriction)", "capacity >= 1 except for moved-from objects"],
     },
@@ -131,6 +134,12 @@ class Ref:
         elif op == "iter":
             o = self.need(int(a[0]))
             res = "l=" + " ".join(map(str, o[2]))
+        elif op == "it":
+            o = self.need(int(a[0]))
+            try:
+                res = iterspec.oracle(o[2], int(a[1]), a[2:])
+            except iterspec.BadScript:
+                raise Invalid()
         elif op == "size":
             res = "n=%d" % len(self.need(int(a[0]))[2])
         elif op == "cap":
@@ -272,8 +281,11 @@ def gen_random_case(rng, maxcap, maxlen):
             # resize targets around size, last index and capacity
             base = rng.pick([len(items), cap, max(1, len(items) - 1), cap + 1, cap - 1, 1, len(items) + 1, 1 + rng.below(maxcap + 3)])
             emit("rb resize %d %d" % (i, max(1, base)))
-        elif k < 62:
+        elif k < 58:
             emit("rb iter %d" % i)
+        elif k < 62:
+            st, cmds = iterspec.gen(rng, items)
+            emit("rb it %d %d %s" % (i, st, " ".join(cmds)))
         elif k < 68:
             if items:
                 emit("rb get %d %d" % (i, rng.below(len(items))))
@@ -425,20 +437,20 @@ def project(prop, line):
 def run_tie(prop, spec, tier, seed):
     res = TieResult()
     rng = lib.SplitMix(seed).fork("ringbuffer")
-    binary, out = lib.build_harness("rb_tracked", [HARNESS], deps=["harness/tracked.h"])
+    binary, out = lib.build_harness("rb_tracked", [HARNESS], deps=["harness/tracked.h", "harness/iter_script.h"])
     if binary is None:
         res.failures.append(Failure("infra", "harness does not compile against the working tree", replay={"compiler": out[-3000:]}))
         return res
     bin_long = None
     if prop == "C04":
-        bin_long, out2 = lib.build_harness("rb_long", [HARNESS], extra_flags=["-DELEM_LONG"], deps=["harness/tracked.h"])
+        bin_long, out2 = lib.build_harness("rb_long", [HARNESS], extra_flags=["-DELEM_LONG"], deps=["harness/tracked.h", "harness/iter_script.h"])
         if bin_long is None:
             res.failures.append(Failure("infra", "harness (long) does not compile", replay={"compiler": out2[-3000:]}))
             return res
 
     bin_double = None
     if prop == "C04":
-        bin_double, out3 = lib.build_harness("rb_double", [HARNESS], extra_flags=["-DELEM_DOUBLE"], deps=["harness/tracked.h"])
+        bin_double, out3 = lib.build_harness("rb_double", [HARNESS], extra_flags=["-DELEM_DOUBLE"], deps=["harness/tracked.h", "harness/iter_script.h"])
         if bin_double is None:
             res.failures.append(Failure("infra", "harness (double) does not compile", replay={"compiler": out3[-3000:]}))
             return res
@@ -476,7 +488,7 @@ def run_tie(prop, spec, tier, seed):
         for l, y in zip(c, lay):
             t = l.split()
             opcount[t[1]] = opcount.get(t[1], 0) + 1
-            if t[1] in ("size", "cap", "live", "iter", "get", "front", "back", "eq"):
+            if t[1] in ("size", "cap", "live", "iter", "it", "get", "front", "back", "eq"):
                 continue
             key = (t[1], y, t[3] if t[1] == "resize" else "")
             distinct.add(key)
@@ -545,7 +557,7 @@ def replay(prop, spec, path):
         return 0
     which = data["replay"].get("element", "impl")
     binary, out = lib.build_harness({"impl": "rb_tracked", "long": "rb_long", "double": "rb_double"}[which], [HARNESS],
-                                    extra_flags={"impl": [], "long": ["-DELEM_LONG"], "double": ["-DELEM_DOUBLE"]}[which], deps=["harness/tracked.h"])
+                                    extra_flags={"impl": [], "long": ["-DELEM_LONG"], "double": ["-DELEM_DOUBLE"]}[which], deps=["harness/tracked.h", "harness/iter_script.h"])
     e = expected(ops)
     o = seqtie.run_stream(binary, [ops], "rb reset")[0]
     m = seqtie.run_stream(None, [ops], "rb reset", is_driver=True)[0]
